@@ -351,12 +351,12 @@ theorem decode_marshal (R : Registry) (gz : Bytes → Option Bytes) (hW : WFR R)
 theorem headObject_marshal (R : Registry) (P : Prims) (hW : WFR R) (v : Val) (bs rest : Bytes)
     (hwt : WT R (.iface "tl.Object") v) (henc : marshal R v = .ok bs) (hf : need v ≤ 4096) :
     ∃ v', headObject R P (bs ++ rest) = some (v', bs, rest) ∧ erase v' = erase v := by
-  obtain ⟨v', hdec, her⟩ := rt_val R P.gunzip hW v (.iface "tl.Object") bs rest [] (fuelFor (bs ++ rest) + 1) hwt henc
+  obtain ⟨v', hdec, her⟩ := rt_val R P.gunzip 0 hW v (.iface "tl.Object") bs rest [] (fuelFor (bs ++ rest) + 1) hwt henc
     (by unfold fuelFor; omega)
   refine ⟨v', ?_, her⟩
   simp only [decVal] at hdec
   unfold headObject
-  cases hreg : decRegistered R P.gunzip (fuelFor (bs ++ rest)) (bs ++ rest) [] with
+  cases hreg : decRegistered R P.gunzip 0 (fuelFor (bs ++ rest)) (bs ++ rest) [] with
   | err e => simp [hreg] at hdec
   | panic s => simp [hreg] at hdec
   | ok p =>
